@@ -77,6 +77,18 @@ CHECKS = {
         "stand in for work; the C parser back end is out of reach.",
         "5/C10",
     ),
+    "C01": (
+        "exploration",
+        "differential testing against an independent strict RFC 9112 reader: grammar-generated request pipelines, every "
+        "named smuggling mutation class at generated positions, raw byte mutations; three-valued oracle "
+        "(accept-with-this-reading / must-reject / don't-care)",
+        "For each generated stream aiohttp's request parser must deliver exactly the requests the strict reader yields "
+        "(line, ordered fields, body bytes, count) and must reject where the reader finds ambiguous or malformed "
+        "framing; a late-completion probe separates 'not yet decided' from 'accepted'.",
+        "Trusts vlib/refhttp.strict_read; the DON'T-CARE classes listed in the module are not decided; the C/llhttp back "
+        "end cannot be built here.",
+        "5/C01",
+    ),
 }
 
 REASON_PENDING = "check not built yet in this round (design in DESIGN.md section 5); not claimed until it runs quietly on the unchanged tree"
